@@ -402,6 +402,12 @@ def fam_directed(ctx, k):
     elif k == 6:    # micro-scale geometry through +
         m = skfem.MeshTri().refined(1).scaled(2.0 ** -20)
         O.op_add(ctx, rng, St(m, "tri", 1), St(m.translated((2.0 ** -20, 0.0)), "tri", 1))
+    elif k == 8:    # a tag that lost all its facets, then a split, then another restriction
+        q = skfem.MeshQuad().refined(2).with_boundaries({"left": lambda x: x[0] == 0.0})
+        r = q.restrict(lambda x: x[0] > 0.5)
+        out = O.op_to_meshtri(ctx, rng, St(r, "quad", 1))
+        if out is not None:
+            O.op_restrict(ctx, rng, out)
     elif k == 7:
         for cls, kind in ((skfem.MeshTri2, "tri"), (skfem.MeshQuad2, "quad"), (skfem.MeshTet2, "tet"),
                           (skfem.MeshHex2, "hex")):
@@ -476,5 +482,5 @@ _FNS = {"cleanup": fam_cleanup, "join-add": fam_add(8), "join-add-fine-coordinat
         "transform": fam_transform, "trace": fam_trace, "tagging": fam_tagging, "sequences": fam_chains}
 _FNS.update({"restrict-" + kd: fam_restrict(kd) for kd in G.KINDS})
 FAMILIES = [Family(name, _FNS[name], quick=q, thorough=q * THOROUGH_FACTOR, budget=QB) for name, q in QUICK.items()]
-FAMILIES.append(Family("directed", fam_directed, 8, 8, budget=QB))
+FAMILIES.append(Family("directed", fam_directed, 9, 9, budget=QB))
 FAMILIES.append(Family("docs-meshes", fam_docs, 40, 40, budget={"quick": 60, "thorough": 300}))
